@@ -972,6 +972,7 @@ func TestC27(t *testing.T) {
 		"(b) model map over (peer|default, asset, op) under SetRate/DeleteRate/SetDefaultRate/GetRate/GetDefaultRate/Compute/reopen sequences of 10..60 ops on 3 peers x 2 assets x 2 ops with a full 16-key sweep after every mutation and every reopen; concurrent variant: 8 goroutines, call/return stamps from one atomic counter, porcupine register model partitioned by key; " +
 		"(c) every poll/request_poll payload captured at a fake peersync.Lightning (triggers: RequestPoll, inbound request_poll, PollAllPeers, ForcePollAllPeers on a real PeerSync with the real guard and Setting) must carry the four rates Setting.GetRate(recipient, asset, op). " +
 		"distinct = op kind x layer state (specific/global set) x source of the expected rate x amount/rate class x outcome"
+	r.Rule += " (d) the premium a real responder node writes into its swap_in_agreement / swap_out_agreement for every (asset, direction) under the layer sequences {built-in, stored global (changed, zero, changed again), peer-specific (non-zero, zero, negative, removed)} = trunc(amount * selected rate / 10^6), the rate selected by the harness from the table it wrote (built-in values as documented)."
 	r.Assumptions = []string{
 		"the built-in default is the table premium.DefaultPremiumRate",
 		"peer ids are node public keys (66 hex characters); the literal id \"default\" is not a peer",
